@@ -386,7 +386,9 @@ class IndicationMonitor(Monitor):
             self.eof_emitted = True
             if bits & 1 and "eof_sent" not in names:
                 w.violate("C15.missing", "a.src eof_sent at first EOF emission", "")
-        if rec.inb_kind == "FIN" and rec.exc is None and rec.pre.step == "WAITING_FOR_FINISHED":
+        if rec.inb_kind == "FIN" and rec.exc is None and (
+            rec.pre.step == "WAITING_FOR_FINISHED" or (rec.pre.step == "WAITING_FOR_EOF_ACK" and rec.post.step == "SENDING_ACK_OF_FINISHED")
+        ):
             self.fin_accepted_a = rec.inb_info
         if "finished" in names:
             fi = [i for i in rec.inds if i[0] == "finished"][0]
@@ -505,6 +507,11 @@ class RoutingMonitor(Monitor):
         w.probe(f"rc:{key}:dir{h[0]}:mode{h[1]}:crc{h[2]}:idw{h[3][1]}")
         if want is not None and hk != want:
             w.violate("C20.routing_table", f"{key} -> {hk} want {want}", "")
+
+    def on_route_error(self, w, ent, pdu) -> None:
+        key = route_key(pdu)
+        if key in ROUTING_TABLE:
+            w.violate("C20.routing_raises", f"{key} refused by the routing helper", f"{pdu_info(pdu)}")
 
     def on_call(self, w, rec) -> None:
         if rec.inb is None:
